@@ -127,6 +127,35 @@ fn main() {
         });
     }
 
+    // ---------------------------------------------------------------- C13 / C16: --visualize-deps and --verbose only add the two graph files
+    for mode in ["none", "zod"] {
+        rep.case("visualisation_and_verbosity_only_add_the_graph_files", &format!("--validation {}", mode), &|| {
+            let p = project(&root, &format!("viz_{}", mode), Some(conf_plain));
+            let pp = p.join("src-tauri");
+            let strip = |m: BTreeMap<String, Vec<u8>>| -> BTreeMap<String, String> { m.into_iter().map(|(k, v)| (k, String::from_utf8_lossy(&v).lines().filter(|l| !l.contains("Generated at:")).collect::<Vec<_>>().join("\n"))).collect() };
+            let mut outs = Vec::new();
+            for (i, extra) in [vec![], vec!["--visualize-deps"], vec!["--verbose"], vec!["--verbose", "--visualize-deps"]].iter().enumerate() {
+                let gp = p.join(format!("gen{}", i));
+                let mut a = vec!["generate", "--project-path", pp.to_str().unwrap(), "--output-path", gp.to_str().unwrap(), "--validation", mode, "--force"];
+                a.extend(extra.iter());
+                let (code, text) = run(&cli, &p, &a)?;
+                if code != 0 { return Err(format!("generate {:?} ended with status {}: {}", extra, code, text.chars().take(200).collect::<String>())); }
+                outs.push((extra.clone(), strip(snapshot(&gp))));
+            }
+            let base = outs[0].1.clone();
+            for (extra, files) in &outs[1..] {
+                for (f, text) in &base { if f != ".typecache" && files.get(f) != Some(text) { return Err(format!("{} differs when generated with {:?}", f, extra)); } }
+                for f in files.keys() {
+                    if base.contains_key(f) { continue; }
+                    let graph = f == "dependency-graph.txt" || f == "dependency-graph.dot";
+                    if !(graph && extra.contains(&"--visualize-deps")) { return Err(format!("{:?} added the file {}", extra, f)); }
+                }
+                if extra.contains(&"--visualize-deps") && !(files.contains_key("dependency-graph.txt") && files.contains_key("dependency-graph.dot")) { return Err("--visualize-deps did not write its two files".into()); }
+            }
+            Ok("ok".into())
+        });
+    }
+
     // ---------------------------------------------------------------- C15: exit status on odd trees
     let odd: Vec<(&str, Vec<(&str, &str)>)> = vec![
         ("empty-project", vec![]),
